@@ -23,7 +23,9 @@
   * Magic-byte resolvers are Go closures over regular expressions (outside the model): the model takes the
     list of their answers on the peeked bytes, in registry order (`magic : Option (List (Option Cti))`,
     `none` = `GetMagicBytes` reported no bytes).
-  * Blank nodes, factories and label providers are those of `Model/BlankNodes.lean` (C14).
+  * Blank nodes, factories and label providers are those of `Model/BlankNodes.lean` (C14). Labels (`BN.Bytes`)
+    are read as code-point lists here (`[]rune(label)`; decoders only produce valid UTF-8 labels, for which
+    string equality and rune-list equality coincide), because that is what `Model/NQuads.lean` writes.
   Core-only imports.
 -/
 import RdfModel.Model.Term
